@@ -44,16 +44,29 @@ def ilist(xs):
 
 # ------------------------------------------------------------------ naive reference used by the generator and the laws
 
+def ym(n):
+    """the calendar month a day number lies in: (year, month) - "t's month" of the statement"""
+    t = fo(n)
+    return (t.year, t.month)
+
+
 class Naive(object):
-    """day-by-day counting on integers - the property statement read literally"""
+    """day-by-day counting on integers - the property statement read literally.
+
+    `inside` = every listed holiday lies in [t0, t1] (the docstring: "Calendar is restricted to operate between cal.t0 and
+    cal.t1").  Then "business day" is well defined on every day (beyond the range no day is a holiday) and `up`/`down` count
+    on past the range end.  A calendar with holidays listed OUTSIDE its range is outside the statement at the range ends
+    (docs/notes/C05.md, "range end"): there `up`/`down` answer None beyond the range and the laws skip, the model-vs-code
+    comparison still runs."""
 
     def __init__(self, t0, t1, weekend, hol, adj):
         self.t0, self.t1, self.weekend, self.hol, self.adj = t0, t1, set(weekend), set(hol), adj
+        self.inside = all(t0 <= h <= t1 for h in hol)
 
     def isb(self, n):
         return (n + 6) % 7 not in self.weekend and n not in self.hol
 
-    def up(self, n):
+    def up_in(self, n):
         """nearest business day on or after n inside the range, else None"""
         while n <= self.t1:
             if self.isb(n):
@@ -61,12 +74,29 @@ class Naive(object):
             n += 1
         return None
 
-    def down(self, n):
+    def down_in(self, n):
         while n >= self.t0:
             if self.isb(n):
                 return n
             n -= 1
         return None
+
+    def up(self, n):
+        """nearest business day on or after n (None: only beyond the range of a calendar with holidays outside its range)"""
+        r = self.up_in(n)
+        if r is None and self.inside:
+            r = max(n, self.t1 + 1)
+            while not self.isb(r):
+                r += 1
+        return r
+
+    def down(self, n):
+        r = self.down_in(n)
+        if r is None and self.inside:
+            r = min(n, self.t0 - 1)
+            while not self.isb(r):
+                r -= 1
+        return r
 
     def adjust(self, n, adj=None):
         adj = adj or self.adj
@@ -77,15 +107,18 @@ class Naive(object):
         f = self.up(n)
         if f is None:
             return None
-        if fo(f).month != fo(n).month:
+        if ym(f) != ym(n):      # "unless that leaves t's month": the month of a year, not a month number
             return self.down(n)
         return f
+
+    def in_range(self, a):
+        return a is not None and self.t0 <= a <= self.t1
 
     def nth(self, a, n):
         """the n-th business day counted from the business day a (None if it leaves the range)"""
         step = 1 if n > 0 else -1
         for _ in range(abs(n)):
-            a = self.up(a + 1) if step > 0 else self.down(a - 1)
+            a = self.up_in(a + 1) if step > 0 else self.down_in(a - 1)
             if a is None:
                 return None
         return a
@@ -96,7 +129,13 @@ class Naive(object):
 
 # ------------------------------------------------------------------ generator
 
-def rand_calendar(rng, tier):
+def rand_calendar(rng, tier, kind='std'):
+    """kind: 'std' (holidays inside the range, densities 0-40%, runs of 1-6 days across month ends and weekends),
+    'longrun' (one holiday run of 12-14 months: "holiday sets of any density"; the following business day then lies in the
+    same month NUMBER of the next year), 'outside' (holiday runs straddling / beyond the range ends: outside the statement,
+    compared model-vs-code only)"""
+    if kind == 'longrun':
+        return longrun_calendar(rng)
     y = rng.choice([1900, 1950, 1999, 2000, 2019, 2020, 2024, 2100, 2296]) if rng.random() < 0.5 else rng.randrange(1900, 2296)
     t0 = D(y, rng.randrange(1, 13), rng.randrange(1, 29)).toordinal()
     t1 = min(t0 + rng.randrange(2 * 365, 4 * 365), TMAX)
@@ -122,7 +161,41 @@ def rand_calendar(rng, tier):
     if rng.random() < 0.15:  # a holiday run at the very start / end of the range
         for k in range(rng.randrange(1, 6)):
             hol.add(t0 + k if rng.random() < 0.5 else t1 - k)
+    if kind == 'outside':
+        for end in rng.choice([(1,), (0,), (0, 1)]):
+            lo, hi = rng.randrange(0, 4), rng.randrange(1, 6)      # run [edge - lo, edge + hi] on the outer side
+            for k in range(-lo, hi + 1):
+                hol.add(t1 + k if end else t0 - k)
+        if rng.random() < 0.5:
+            hol.add(t1 + rng.randrange(1, 12))
+            hol.add(t0 - rng.randrange(1, 12))
     return t0, t1, weekend, sorted(hol), adj
+
+
+def longrun_calendar(rng):
+    """a 3-4 year calendar with ONE holiday run of 366..430 consecutive days (plus a few isolated holidays), small weekend"""
+    y = rng.choice([1999, 2000, 2019, 2020, 2099]) if rng.random() < 0.5 else rng.randrange(1900, 2290)
+    t0 = D(y, rng.randrange(1, 13), rng.randrange(1, 29)).toordinal()
+    t1 = t0 + rng.randrange(3 * 365, 4 * 365)
+    weekend = rng.choice(WEEKENDS)
+    adj = rng.choice(['m', 'm', 'f', 'p'])
+    start = t0 + rng.randrange(30, 500)
+    hol = set(range(start, start + rng.randrange(366, 431)))
+    hol.update(rng.randrange(t0, t1 + 1) for _ in range(rng.choice([0, 3, 10])))
+    return t0, t1, weekend, sorted(hol), adj
+
+
+def long_runs(hol, least=300):
+    """(first, last) of every run of at least `least` consecutive holidays"""
+    out, i, hs = [], 0, sorted(hol)
+    while i < len(hs):
+        j = i
+        while j + 1 < len(hs) and hs[j + 1] == hs[j] + 1:
+            j += 1
+        if j - i + 1 >= least:
+            out.append((hs[i], hs[j]))
+        i = j + 1
+    return out
 
 
 def interesting_days(rng, cal, count):
@@ -131,6 +204,11 @@ def interesting_days(rng, cal, count):
     for k in range(0, 6):
         days.add(t0 + k)
         days.add(t1 - k)
+    for a, b in long_runs(hol):     # a year before the first day after a long run: same month number, other year
+        for k in range(0, 10):
+            days.update([b + 1 - 365 - 3 * k, b + 1 - 366 + k])
+        days.update([a - 1, a, a + 1, b - 1, b, b + 1, (a + b) // 2])
+    must = set(d for d in days if t0 <= d <= t1)     # always kept
     hs = list(hol)
     rng.shuffle(hs)
     for h in hs[:count // 4]:
@@ -141,9 +219,12 @@ def interesting_days(rng, cal, count):
         days.update([first - 1, first])
     while len(days) < count:
         days.add(rng.randrange(t0, t1 + 1))
-    days = sorted(d for d in days if t0 <= d <= t1)
+    days = sorted(d for d in days if t0 <= d <= t1 and d not in must)
     rng.shuffle(days)
-    return sorted(days[:count])
+    return sorted(list(must) + days[:max(0, count - len(must))])
+
+
+KINDS = {3: 'longrun', 13: 'longrun', 7: 'outside', 17: 'outside'}    # calendar index mod 20 -> class (else 'std')
 
 
 def new_line(cal):
@@ -158,12 +239,15 @@ def generate(rng, tier):
     lines += ['(cal ymd %d)' % rng.randrange(TMIN, TMAX + 1) for _ in range(300 if tier == 'quick' else 20000)]
     yield dict(tag='civil', lines=lines)
     for ci in range(ncal):
-        cal = rand_calendar(rng, tier)
+        kind = KINDS.get(ci % 20, 'std')
+        cal = rand_calendar(rng, tier, kind)
         t0, t1, weekend, hol, adj = cal
         nv = Naive(*cal)
         dens = len(hol) / float(t1 - t0 + 1)
         tag = 'cal we=%s adj=%s hol=%s' % (''.join(map(str, weekend)) or '-', adj,
                                             '0' if not hol else '<5%' if dens < 0.05 else '<15%' if dens < 0.15 else '>=15%')
+        if kind != 'std':
+            tag = 'cal %s we=%s adj=%s' % (kind, ''.join(map(str, weekend)) or '-', adj)
         lines = [new_line(cal)]
         for t in interesting_days(rng, cal, ndays):
             lines.append('(cal isb %d)' % t)
@@ -349,8 +433,8 @@ def _laws(rng, tier, ctx):
     from pyg_base._drange import Calendar, calendar
     count = 0
     ncal, ndays = (25, 40) if tier == 'quick' else (250, 120)
-    for _ in range(ncal):
-        cal = rand_calendar(rng, tier)
+    for li in range(ncal):
+        cal = rand_calendar(rng, tier, {2: 'longrun', 7: 'longrun', 5: 'outside'}.get(li % 10, 'std'))
         t0, t1, weekend, hol, adj = cal
         nv = Naive(*cal)
         c = Calendar(None, holidays=[fo(h) for h in hol], weekend=list(weekend), t0=fo(t0), t1=fo(t1), adj=adj)
@@ -383,7 +467,7 @@ def _laws(rng, tier, ctx):
                 if got != fo(want):
                     yield bad('adjust', ['(cal adjust %s %d)' % (a, t)], "adjust(%s,'%s') = %s, nearest business day by counting is %s" % (T, a, got, fo(want)))
             a0 = nv.adjust(t)
-            if a0 is None or not nv.isb(a0):
+            if not nv.in_range(a0) or not nv.isb(a0):
                 continue
             for n in [1, -1, 2, -2, 0] + [rng.randrange(-40, 41) for _ in range(3)]:
                 want = nv.nth(a0, n)
@@ -413,7 +497,7 @@ def _laws(rng, tier, ctx):
             # drange '1b'
             u = min(t + rng.choice([0, 1, 3, 7, 15, 45]), t1)
             a1 = nv.adjust(u)
-            if a1 is not None and nv.isb(a1):
+            if nv.in_range(a1) and nv.isb(a1):
                 count += 1
                 got = call(lambda: c.drange(T, fo(u), '1b'))
                 want = [fo(x) for x in nv.between(a0, a1)]
